@@ -4,11 +4,6 @@
 From Coq Require Import String.
 From MdIt Require Import Prims Tables Escape NormRef Indent Mdurl SourceMap Ruler LinkParse Regex HtmlRe Tree Render Block Inline Core.
 From MdIt Require Import TreeProofs BlockProofs InlineProofs LookaheadProofs RangeProofs DepthProofs InlineDepthProofs RefsProofs.
-
-Section Links.
-Variable good : str -> bool.
-Hypothesis good_pipeline : forall s, validate_link (normalize_link s) = true -> good (normalize_link s) = true.
-Hypothesis good_empty : good [] = true.
 From Coq Require Import Lia ZifyBool ZifyN ZifyNat.
 Local Open Scope list_scope.
 Local Open Scope N_scope.
@@ -18,6 +13,11 @@ Arguments N.leb : simpl never.
 Arguments N.ltb : simpl never.
 Arguments N.add : simpl never.
 Arguments N.sub : simpl never.
+
+Section Links.
+Variable good : str -> bool.
+Hypothesis good_pipeline : forall s, validate_link (normalize_link s) = true -> good (normalize_link s) = true.
+Hypothesis good_empty : good [] = true.
 
 Definition kind_ok (k : kind) : bool := match k with KLink u _ | KImage u _ | KAutolink u => good u | _ => true end.
 
